@@ -21,6 +21,8 @@ type Prop struct {
 	TrustedBase []string `json:"trusted_base"`
 	Assumptions []string `json:"assumptions"`
 	MinObligations int   `json:"min_obligations"`
+	Profile        string `json:"profile"` // contracts declared `func F @profile` replace the default contract of F
+
 	Bounded     []string `json:"bounded"` // function keys whose obligations are bounded (never counted as proved)
 	Sweep       []string `json:"sweep"`   // functions verified for safety only without a written contract (zero-annotation sweep)
 	// obligations (substring of the obligation name) that belong to ANOTHER property although they are
@@ -88,6 +90,7 @@ func cmdFunc(args []string) int {
 			pats = append(pats, a)
 		}
 	}
+	activeProfile = os.Getenv("GOVC_PROFILE")
 	w, err := loadWorld(pats, nil)
 	if err != nil {
 		fmt.Println("load error:", err)
